@@ -6,27 +6,23 @@ LEAN_MODULES = ["GoaktVerif.Props.C14"]
 THEOREMS = [
     "GoaktVerif.C14.applyOp_nodes",
     "GoaktVerif.C14.applyOp_len_inv",
+    "GoaktVerif.C14.good_applyOp",
     "GoaktVerif.C14.unbecome_clears",
+    "GoaktVerif.C14.unbecomeStacked_keeps_base",
     "GoaktVerif.C14.C14_inprogress",
-    "GoaktVerif.C14.run_eq_plain",
-    "GoaktVerif.C14.run_nodes_plain",
-    "GoaktVerif.C14.run_len_inv",
-    "GoaktVerif.C14.wf_handlers_agree",
-    "GoaktVerif.C14.events_agree",
-    "GoaktVerif.C14.deaf_absorbing",
-    "GoaktVerif.C14.C14_refuted",
-    "GoaktVerif.C14.C14_partial",
-    "GoaktVerif.C14.C14_partial_stack",
-    "GoaktVerif.C14.C14_partial_never_deaf",
-    "GoaktVerif.C14.C14_plain_holds",
-    "GoaktVerif.C14.C14_deaf_forever",
+    "GoaktVerif.C14.run_eq_doc",
+    "GoaktVerif.C14.run_final",
+    "GoaktVerif.C14.run_events",
+    "GoaktVerif.C14.C14_holds",
+    "GoaktVerif.C14.C14_stack",
+    "GoaktVerif.C14.C14_never_deaf",
 ]
 INPKG = ["actor/zz_verif_c14.go"]
 TIMEOUT = 1500
 MANIFEST = {
-    "level_text": "Kernel-checked theorems over a model of behaviorStack + PID.setBehavior/resetBehavior/setBehaviorStacked/unsetBehaviorStacked + handleReceived (Peek once per message): for ALL message streams and ALL switch scripts the handler of every message is the top of a naive stack at the start of that message and the length counter equals the node count (C14_plain_holds, induction, no guard); every call made while a message is handled is executed by the behaviour that started it (C14_inprogress); against the DOCUMENTED stack the full statement is refuted by a witness (C14_refuted: UnBecomeStacked with nothing stacked pops the base and the actor ignores all later messages forever, C14_deaf_forever) and proved for every script that never does that (C14_partial, decidable guard wellFormed). The model is tied to /repo on every run by a differential against a real actor in a real actor system driven through Tell and the public ReceiveContext API.",
-    "level_note": "Tie is a differential (sampled: exhaustive over all op sequences up to length 6 over 8 op tokens in the thorough tier, up to length 3 plus random scripts up to 20 ops in the quick tier), not a translation of the Go source; the CAS retry loops of the lock-free stack are modelled as atomic steps (switch calls come from the single goroutine that is handling the message, under fieldsLocker); Restart re-pushing the default and reset() on shutdown are outside the model. Open finding C14-F1 (base behaviour can be popped).",
-    "technique": "Lean 4 proof (induction over message streams and scripts, refinement to a list stack) + model/implementation differential through a real actor system",
+    "level_text": "Kernel-checked theorems over a model of behaviorStack (nodes + length counter) + PID.setBehavior/resetBehavior/setBehaviorStacked/unsetBehaviorStacked + handleReceived (Peek once per message): for ALL message streams and ALL switch scripts, with no guard, the handler of every message is the top of the DOCUMENTED stack at the start of that message (Become replaces, BecomeStacked pushes, UnBecomeStacked pops but never the base, UnBecome leaves only the default) and every call made while a message is handled is executed by the behaviour that started it (C14_holds, C14_inprogress, induction under the representation invariant length = node count); the stack left behind and Len() are the documented ones (C14_stack) and no message is ever left without a handler (C14_never_deaf). The model is tied to /repo on every run by a differential against a real actor in a real actor system driven through Tell and the public ReceiveContext API.",
+    "level_note": "Tie is a differential (exhaustive over all op sequences up to length 6 over 8 op tokens in the thorough tier, up to length 3 plus random scripts up to 20 calls in the quick tier), not a translation of the Go source; the CAS retry loops of the lock-free stack are modelled as atomic steps (switch calls come from the single goroutine that is handling the message, under fieldsLocker); Restart re-pushing the default and reset() on shutdown are outside the model.",
+    "technique": "Lean 4 proof (induction over message streams and scripts, refinement to the documented list stack) + model/implementation differential through a real actor system",
 }
 TRUSTED = [
     "harness/verifdrv/c14: numbered closures as behaviours, counting mailbox wrapper around the real UnboundedMailbox for quiescence detection",
@@ -227,18 +223,7 @@ def oracle(case, impl, judge):
 
 
 def classify(case, impl, why):
-    """C14-F1 = exactly the base-pop family: the implementation's handlers are those of the naive
-    stack (UnBecomeStacked pops the base too) and differ from the documented stack's."""
-    msgs = _parse(case)
-    if msgs is None or impl is None:
-        return None
-    obs = _impl_obs(impl)
-    if obs is None:
-        return None
-    hs, dep, ln = obs
-    if ln == dep and (hs, dep) == _predict(msgs, False) and (hs, dep) != _predict(msgs, True):
-        return "C14-F1"
-    return None
+    return None  # no open finding (C14-F1 was fixed in /repo)
 
 
 def shrink(case):
